@@ -141,10 +141,7 @@ func (ks *KafkaStorage) GetMessages(_ uint64) ([]storage.Message, error) {
 	ctx, cancel := context.WithDeadline(ks.readerCtx, time.Now().Add(ks.readDuration))
 	defer cancel()
 
-	var (
-		message  storage.Message
-		messages []storage.Message
-	)
+	var messages []storage.Message
 	for {
 		kafkaMessage, err := ks.reader.ReadMessage(ctx)
 		if err != nil {
@@ -155,6 +152,8 @@ func (ks *KafkaStorage) GetMessages(_ uint64) ([]storage.Message, error) {
 			}
 		}
 
+		// a fresh value for every record: a field that a record omits must not inherit the previous record's value
+		var message storage.Message
 		if err = json.Unmarshal(kafkaMessage.Value, &message); err != nil {
 			log.Printf("failed to unmarshal a message %s: %s", string(kafkaMessage.Value), err.Error())
 			continue
